@@ -187,10 +187,19 @@ class H:
         elif not cond.b:
             raise PathAbort("assumption false")
 
-    def prove(self, name, cond):
+    def prove(self, name, cond, conc=None, drop_pc=False):
+        """Queue/evaluate a claim.  `conc`: optional callable evaluated instead of `cond` in
+        conc mode (e.g. a finite-difference check for derivative claims).  `drop_pc`: discharge
+        under the side constraints only (used for limit/continuity claims obtained by
+        substituting into a branch formula)."""
+        if self.mode == "conc" and conc is not None:
+            self.obligations.append((name, bool(conc())))
+            return
+        if cond is None:
+            return
         cond = core._lift_cond(cond)
         if self.mode == "sym":
-            self.obligations.append((name, cond.term()))
+            self.obligations.append((name, cond.term(), drop_pc))
         elif self.mode == "fold":
             t = z3.simplify(cond.term())
             if z3.is_true(t) or z3.is_false(t):
@@ -469,7 +478,7 @@ def run_job(hdef, case, tier="quick", seed=0, replay_budget=6):
                     f"{hdef.name}{_case_repr(case)}: exception on symbolic path not reproduced "
                     f"concretely: {type(ex).__name__}: {ex}")
         # ---- obligations
-        for name, claim in h.obligations:
+        for name, claim, drop_pc in h.obligations:
             claim = z3.simplify(claim)
             if z3.is_true(claim):
                 stats["concrete_true"] = stats.get("concrete_true", 0) + 1
@@ -485,7 +494,8 @@ def run_job(hdef, case, tier="quick", seed=0, replay_budget=6):
             # slower on nonlinear real arithmetic than the one-shot nlsat pipeline
             osolver = z3.Solver()
             osolver.set("timeout", int(timeout_s * 1000))
-            osolver.add(cons)
+            osolver.set("rlimit", int(timeout_s * 4e6))
+            osolver.add(e.side if drop_pc else cons)
             osolver.add(axioms)
             osolver.add(z3.Not(claim))
             verdict = None
@@ -563,6 +573,13 @@ def _validate(hdef, case, vals, seed, stats):
     if of[0] == "abort":
         return
     stats["validated_points"] += 1
+    for n, ok in hc.obligations:
+        if not ok:
+            stats["violations"].append({
+                "harness": hdef.name, "case": case, "obligation": n, "values": dict(hc.values),
+                "detail": "obligation fails in a plain-float execution of the real code at a "
+                          "translator-validation point (found outside the solver)"})
+            break
     co = dict(hc.observed)
     for name, v in hf.observed:
         if name not in co:
